@@ -913,8 +913,9 @@ def lit_shapes(tier):
         return dict(name=name, setup=setup, filt=filt, nmax=nmax, what=what, integer=integer, tail=tail)
     # digits: decimal, hexadecimal, octal (after the leading 0), binary; characters: any text, floating literal.
     # quick: every boundary between int, unsigned, long (2^31, 2^32) is crossed in base 10, 16 and 8;
-    # thorough: every boundary up to 2^64 in every base
-    dd, hd, od, bd, na, nf = (10, 9, 11, 12, 7, 9) if q else (20, 16, 22, 64, 11, 14)
+    # thorough: the largest bounds that were measured to finish (binary crosses 2^32 as well).  Bounds that cross
+    # 2^63 / 2^64 in every base are C14_LIT_BOUNDS=20,16,22,64,11,14 (not measured; raise C14_TIMEOUT with them)
+    dd, hd, od, bd, na, nf = (10, 9, 11, 12, 7, 9) if q else (11, 9, 12, 33, 8, 10)
     if os.environ.get('C14_LIT_BOUNDS'):          # development aid
         dd, hd, od, bd, na, nf = [int(x) for x in os.environ['C14_LIT_BOUNDS'].split(',')]
     INT = 'c14_spec.kind == C14_LIT_INT && c14_spec.base == %d'
@@ -971,7 +972,7 @@ def literal_groups(ctx, unit):
         g = Group(
             name='literal/' + sh['name'], sources={'literal.c': body}, entry='h_literal', lang='c', defines=defines,
             unwind=n + 3, checks=ARITH_CHECKS + (PTR_CHECKS if sh['tail'] else []), min_obligations=8,
-            timeout=int(os.environ.get('C14_TIMEOUT', '900')),
+            timeout=int(os.environ.get('C14_TIMEOUT', '900' if ctx.tier == 'quick' else '2400')),
             functions=e3 + e2 + e1 + unit.common_ex, canary='CANARY', canary_label='canary',
             strength='bounded',
             bound=sh['what'] + ', followed by any character that ends the token' +
